@@ -17,6 +17,7 @@ QUICK_CONFIG = """features:
   versions:
     - HTTP_VERSION_1
     - HTTP_VERSION_2
+    - HTTP_VERSION_3
   protocols:
     - PROTOCOL_CONNECT
     - PROTOCOL_GRPC
@@ -26,7 +27,6 @@ QUICK_CONFIG = """features:
     - CODEC_JSON
   compressions:
     - COMPRESSION_IDENTITY
-    - COMPRESSION_ZSTD
   supportsTls: true
   supportsTlsClientCerts: false
   supportsH2c: true
@@ -186,7 +186,7 @@ CHECK = {
     "manifest": {
         "engine": "MATRIX",
         "technique": "exhaustive enumeration of the finite configuration space with the real binaries (all permutations in the thorough tier, a reduced HTTP/TLS/compression matrix in the quick tier)",
-        "text": "Five runner invocations exactly as the Makefile does (reference server and client with the reference config, gRPC server and client with grpc-impls-config, gRPC server with grpc-web-server-impl-config), each with --trace and its shipped known-failing file: exit 0, zero failed, every computed permutation ran (none 'could not be run'), reference known-failing lists empty. Thorough: every permutation (12,998 + 16,580 + gRPC runs). Quick: HTTP/1.1+HTTP/2, TLS without client certs, all protocols and codecs, identity+zstd.",
+        "text": "Five runner invocations exactly as the Makefile does (reference server and client with the reference config, gRPC server and client with grpc-impls-config, gRPC server with grpc-web-server-impl-config), each with --trace and its shipped known-failing file: exit 0, zero failed, every computed permutation ran (none 'could not be run'), reference known-failing lists empty. Thorough: every permutation (12,998 + 16,580 + gRPC runs). Quick: all three HTTP versions, TLS without client certs, all protocols and codecs, identity only.",
         "note": "Timing-sensitive cases are re-run in isolation before being reported; Node-based grpc-web client excluded.",
         "design_ref": "DESIGN.md §2.4, §4 C01",
     },
